@@ -893,9 +893,15 @@ fn main() {
                 ("square-abs", "≡(×.⌵) \"\"", true),
                 ("pow-neg1", "≡(⊢ⁿ¯1⍆) ↯0_1 □0", true),
                 ("neg-abs", "≡(⊸(¯⌵□)) []", true),
-                // still open
+                // repaired in round 6: 9ccca04 (fused first/last of rise/fall inside by, rows inside rows, on rowless arrays)
                 ("last-rise", "≡(⊸(⊣⍏)) ↯0_3_2 0", true),
+                ("first-rise", "≡(⊸(⊢⍏)) ↯0_3_2 0", true),
+                ("first-fall", "≡(⊸(⊢⍖)) ↯0_3 0", true),
+                ("last-fall", "≡(⊸(⊣⍖)) ↯0_3 0", true),
                 ("sort-down", "≡(≡(⊏⍖.)) ↯0_2_0 0", true),
+                ("sort-up", "≡(≡(⊏⍏.)) ↯0_2_2 0", true),
+                ("sortdown-reverse", "≡(≡(⇌⇌⊏⍖.¯)) ↯0_2_0 □0", true),
+                // still open
                 ("conjoin-inventory", "/◇⊂⍚(⊂0) []", true),
                 ("reduce-content", "≡(¤/◇⊂) []", true),
                 ("reduce-content", "/◇⊂ ↯0 □0", true),
